@@ -633,10 +633,20 @@ def run_pipeline(out, jobs_by_name, mc_specs, prop):
                 what="clauses %s at call %d" % (",".join(mine), ev)))
         for p in props - {prop}:
             out.others[p] = out.others.get(p, 0) + 1
-    for t in traces[:3]:
-        out.samples.append({"trace": t["id"], "cfg": t["cfg"],
-                            "calls": [[o["k"], o["text"] or [o["id"], o["id2"]], e["res"]]
-                                      for o, e in zip(t["src"], t["ev"])]})
+    def interest(t):
+        ks = [e["op"]["k"] for e in t["ev"] if e["res"] == "ok"]
+        return (len(set(ks) & {"rm", "disc", "ren", "settag", "rsc"}), len({e["res"] for e in t["ev"]}), -abs(len(t["ev"]) - 8))
+    picked, kinds = [], set()
+    for t in sorted(traces, key=interest, reverse=True):
+        if t["kind"] not in kinds:
+            kinds.add(t["kind"])
+            picked.append(t)
+        if len(picked) >= 4:
+            break
+    for t in picked:
+        out.samples.append({"trace": t["id"], "kind": t["kind"], "cfg": t["cfg"],
+                            "calls": [[o["k"], o.get("text") or o.get("texts") or [o["id"], o["id2"]], e["res"]]
+                                      for o, e in zip(t["src"], t["ev"])][:16]})
     return traces, r
 
 
